@@ -78,6 +78,11 @@ func families(run *vk.Run) []*family {
 		{"flag false", `query Q($s: Boolean!) { me { name nick @skip(if: $s) reviews @include(if: $s) { body } } }`, `{"s":false}`},
 		{"document, operation Long", `query Long { me { name nick reviews { body } } } query Short { me { name } }`, `{"__op":"Long"}`},
 		{"document, operation Short", `query Long { me { name nick reviews { body } } } query Short { me { name } }`, `{"__op":"Short"}`},
+		// two entity fetches to ONE subgraph at different paths (a multi-fetch merge
+		// group), each forwarding a field argument bound to its own client variable
+		{"merge group, two variables", `query Q($n: Int, $m: Int) { me { greeting(times: $n) } user(id: "u3") { friends { greeting(times: $m) } } }`, `{"n":2,"m":7}`},
+		{"merge group, values swapped", `query Q($n: Int, $m: Int) { me { greeting(times: $n) } user(id: "u3") { friends { greeting(times: $m) } } }`, `{"n":7,"m":2}`},
+		{"merge group, three members", `query Q($n: Int, $m: Style, $k: Int) { me { greeting(times: $n) } user(id: "u3") { friends { greeting(style: $m) } } users { nick greeting(times: $k) } }`, `{"n":2,"m":"LOUD","k":5}`},
 	}
 	fa := &family{name: "S-abs", s: abs, u: fedlab.SAbsUniverse(abs), schema: mustSchema(abs.SDL())}
 	fa.layout = fedlab.ByType(abs, 2, func(r fedlab.FieldRef) int {
